@@ -907,6 +907,26 @@ func (fx *vfixture) payload() []byte {
 	}
 	b, err := json.Marshal(map[string]interface{}{"targetArtifact": d})
 	must(err)
+	if !fx.in.Desc.DgEq && fx.payloadSalt%4 == 3 {
+		// "signed for another digest" also covers digests that are none: empty, without a separator, without a value, of an
+		// algorithm nobody registered, or no digest member at all (nothing the library signs itself, but anybody with a key can)
+		var m map[string]map[string]interface{}
+		must(json.Unmarshal(b, &m))
+		switch (fx.payloadSalt / 4) % 5 {
+		case 0:
+			m["targetArtifact"]["digest"] = ""
+		case 1:
+			m["targetArtifact"]["digest"] = "sha256"
+		case 2:
+			m["targetArtifact"]["digest"] = "sha256:"
+		case 3:
+			m["targetArtifact"]["digest"] = "md5:d41d8cd98f00b204e9800998ecf8427e"
+		case 4:
+			delete(m["targetArtifact"], "digest")
+		}
+		b, err = json.Marshal(m)
+		must(err)
+	}
 	return b
 }
 
